@@ -167,8 +167,9 @@ class Program:
             else:
                 trn = last_seg(tr)
                 keys.append('<%s as %s>::%s' % (stn, trn, method))
-                keys.append('<%s as %s>::%s' % (stn_bare, re.sub(r'<.*>$', '', trn), method))
-                keys.append('%s::%s' % (stn_bare, method))
+                keys.append('<%s as %s>::%s' % (stn_bare, trn, method))
+                if '<' not in trn:
+                    keys.append('%s::%s' % (stn_bare, method))
         else:
             keys.append(name)
             keys.append(method)
@@ -190,8 +191,13 @@ class Program:
                 ty = last_seg(inner[:j])
                 tr = last_seg(inner[j + 4:])
                 ty_b = re.sub(r'<.*>$', '', ty)
-                for key in ('<%s as %s>::%s' % (ty, tr, method),
-                            '<%s as %s>::%s' % (ty_b, re.sub(r'<.*>$', '', tr), method)):
+                keys = ['<%s as %s>::%s' % (ty, tr, method)]
+                if '<' not in tr:
+                    keys.append('<%s as %s>::%s' % (ty_b, tr, method))
+                else:
+                    # trait with type arguments (From<T>, TryFrom<T>, PartialEq<T> ...): the arguments select the impl
+                    keys.append('<%s as %s>::%s' % (ty_b, tr, method))
+                for key in keys:
                     if key in self.by_key:
                         cands = self.by_key[key]
                         break
